@@ -2,7 +2,7 @@
     All are about [generate fuel inp] = the model of: addJointType*, addBody*, addJoint*, generateGraph(). *)
 From Coq Require Import List ZArith Bool Arith Lia.
 Import ListNotations.
-Require Import C42_Model C42_Proofs C42_Final.
+Require Import C42_Model C42_Proofs C42_Final C42_Fuel C42_Base.
 
 (* ================================================================== property theorems ===== *)
 (** Notation for readers: body 0 is Ground, bodies 1 .. g_nb-1 are the input bodies, bodies g_nb .. g_nb+|g_slaves|-1
@@ -106,6 +106,30 @@ Proof.
   apply (sh_no_terminal _ _ _ _ _ SH m Hm).
 Qed.
 
+(** (7) termination: with fuel >= (number of input bodies) + 2 the model never runs out of fuel, whatever the joints
+    (so on such fuel the model's answer is Ok or one of the errors the code throws) *)
+Lemma precheck_no_oof T B : forall bns J, precheck T B bns J <> OutOfFuel.
+Proof. induction bns as [|bn r IH]; simpl; intros J; [discriminate|]. repeat dm; auto; discriminate. Qed.
+
+Lemma fuel_suffices fuel inp : length (in_bodies inp) + 2 <= fuel -> generate fuel inp <> OutOfFuel.
+Proof.
+  intros Hf. unfold generate.
+  destruct (checkTypes 2 (in_types inp)); [discriminate|].
+  destruct (checkBodies 1 (in_bodies inp)); [discriminate|].
+  destruct (checkJoints _ _ 0 (in_joints inp)) eqn:Ej; [discriminate|].
+  unfold generateGraph.
+  destruct (precheck (allTypes inp) (allBodies inp) _ (map mkJoint (in_joints inp))) as [J1| |] eqn:Ep; try discriminate.
+  2:{ exfalso. eapply precheck_no_oof; eauto. }
+  assert (HR0 : JRange (allBodies inp) (map mkJoint (in_joints inp))).
+  { intros jn Hjn. rewrite map_length in Hjn. destruct (nth_map_mkJoint _ _ Hjn) as (x & Hx & ->).
+    destruct (checkJoints_none _ _ _ _ Ej _ Hx) as (_ & H2 & H3). simpl. unfold nb. auto. }
+  apply precheck_spec in Ep; auto. 2:{ intros b Hb. apply in_seq in Hb. lia. }
+  destruct Ep as [HR1 _].
+  pose proof (nb_allBodies inp) as Hnb.
+  destruct (mainloop (allTypes inp) (allBodies inp) fuel fuel J1 init_state) as [[J s]| |] eqn:Em; try discriminate.
+  exfalso. eapply (mainloop_no_oof (allTypes inp) (allBodies inp) fuel); try exact Em; auto using init_inv; lia.
+Qed.
+
 (* ------------------------------------------------------------------ the DESIGN 7.19 witnesses: mustBeBaseBody *)
 (** level of input body b in the returned graph *)
 Definition levelOf (g : graph) (b : nat) : option nat := nth b (g_levels g) None.
@@ -127,6 +151,86 @@ Lemma must_be_base_refuted_massless_chain :
 Proof.
   exists witness_ii. eexists. split. { vm_compute. reflexivity. }
   intros H. specialize (H 2). vm_compute in H. assert (E : Some 2 = Some 1) by (apply H; auto). discriminate.
+Qed.
+
+(** (8) mustBeBaseBody, restricted to the inputs that exclude pattern (i): the body has a joint to Ground that is not
+    a mustBeLoopJoint joint, or no joint to Ground at all (then step 1 adds one).  Then the body is at level 1 (inboard
+    body Ground), or it was mobilized outboard of a body that is not massful (pattern (ii), the massless-chain extension). *)
+Definition connectsGround (j : jin) (b : nat) : Prop :=
+  (ji_par j = 0 /\ ji_chi j = b) \/ (ji_par j = b /\ ji_chi j = 0).
+Definition base_joint_precondition (inp : input) (b : nat) : Prop :=
+  (exists j, In j (in_joints inp) /\ ji_loop j = false /\ connectsGround j b) \/
+  (forall j, In j (in_joints inp) -> ~ connectsGround j b).
+
+Lemma must_be_base_honoured fuel inp g b : generate fuel inp = Ok g -> 1 <= b < g_nb g ->
+  baseOf (allBodies inp) b = true -> base_joint_precondition inp b ->
+  exists m, In m (g_mobs g) /\ moutb m = b /\ levelOf g b = Some (mlevel m) /\
+    ((mlevel m = 1 /\ minb m = 0) \/ Z.gtb (massOf (allBodies inp) (minb m)) 0 = false).
+Proof.
+  intros H Hb Hbase Hpre.
+  destruct (generate_shape_ex _ _ _ H) as (Ej & J1 & s & Ep & Em & SH).
+  rewrite (S_nb _ _ _ _ _ SH) in Hb. assert (b_pos : b <> 0) by lia.
+  set (T := allTypes inp) in *. set (B := allBodies inp) in *.
+  assert (HQ : (exists jn, groundLink b (inputJoints inp) jn) \/ noLink b (inputJoints inp)).
+  { destruct Hpre as [(j & Hj & Hl & Hc)|Hno].
+    - left. apply (In_nth _ _ {| ji_ty := 0; ji_par := 0; ji_chi := 0; ji_loop := false |}) in Hj. destruct Hj as (jn & Hjn & Hnth).
+      exists jn. unfold groundLink, link, inputJoints. rewrite map_length.
+      rewrite (nth_indep _ jd (mkJoint {| ji_ty := 0; ji_par := 0; ji_chi := 0; ji_loop := false |})) by (rewrite map_length; auto).
+      rewrite map_nth, Hnth. simpl. auto.
+    - right. intros jn Hjn Hl. unfold inputJoints in Hjn. rewrite map_length in Hjn.
+      destruct (nth_map_mkJoint _ _ Hjn) as (x & Hx & E). unfold link, inputJoints in Hl. rewrite E in Hl. simpl in Hl.
+      apply (Hno x Hx). exact Hl. }
+  destruct (precheck_link T B b b_pos Hbase _ _ _ HQ Ep) as [_ HG].
+  assert (HG1 : exists jn, groundLink b J1 jn) by (apply HG; apply in_seq; lia).
+  assert (HS : Settled B b s).
+  { eapply (mainloop_settles T B fuel b b_pos); [apply init_inv| |exact Em]. right. split; auto. intros m []. }
+  destruct HS as [Hlev HGood].
+  destruct (lev s b) as [l|] eqn:El; [|congruence].
+  destruct (I_lev _ _ (S_inv _ _ _ _ _ SH) _ _ El) as [E0|(i & m & Hi & Hm)]; [congruence|].
+  destruct (I_mob _ _ (S_inv _ _ _ _ _ SH) _ _ Hi) as (_ & _ & _ & _ & M5 & (lp & M6 & M6') & M7 & _).
+  exists m. split; [|split; [auto|split]].
+  - rewrite (S_mobs _ _ _ _ _ SH). apply in_or_app. left. eapply nth_error_In; eauto.
+  - unfold levelOf. rewrite (S_levels _ _ _ _ _ SH).
+    assert (E : nth_error (map (lev s) (seq 0 (nb B))) b = Some (lev s b)).
+    { apply map_nth_error. rewrite nth_error_nth' with (d := 0) by (rewrite seq_length; lia). rewrite seq_nth by lia. reflexivity. }
+    rewrite (nth_error_nth _ _ None E). rewrite Hm in M5. congruence.
+  - destruct (HGood m (nth_error_In _ _ Hi) Hm) as [L1|NM]; [left|right; exact NM]. split; auto.
+    destruct M7 as [M7|(i' & m' & L1' & L2 & L3)]; auto. exfalso.
+    destruct (I_mob _ _ (S_inv _ _ _ _ _ SH) _ _ L2) as (_ & _ & _ & _ & M5' & (lp' & _ & M6'') & _).
+    rewrite L3 in M5'. assert (lp = mlevel m') by congruence. lia.
+Qed.
+
+(** corollary in input terms: if moreover no input joint connects the body to a body that is not massful, it is at level 1 *)
+Definition no_massless_neighbour (inp : input) (b : nat) : Prop :=
+  forall j, In j (in_joints inp) ->
+    (ji_par j = b -> Z.gtb (massOf (allBodies inp) (ji_chi j)) 0 = true) /\
+    (ji_chi j = b -> Z.gtb (massOf (allBodies inp) (ji_par j)) 0 = true).
+
+Lemma must_be_base_honoured_level1 fuel inp g b : generate fuel inp = Ok g -> 1 <= b < g_nb g ->
+  baseOf (allBodies inp) b = true -> base_joint_precondition inp b -> no_massless_neighbour inp b ->
+  levelOf g b = Some 1.
+Proof.
+  intros H Hb Hbase Hpre Hnm.
+  destruct (must_be_base_honoured _ _ _ _ H Hb Hbase Hpre) as (m & Hin & Hout & Hlev & [[L1 _]|NM]); [congruence|].
+  exfalso. destruct (generate_shape _ _ _ H) as (s & SH).
+  destruct (sh_mobilizer_kinds _ _ _ _ _ SH m Hin) as (Hj & [(_ & _ & _ & Hor)|(k & K1 & _)]).
+  2:{ rewrite (S_nb _ _ _ _ _ SH) in Hb. lia. }
+  destruct (S_ext _ _ _ _ _ SH) as (added & EJ & Hadd).
+  rewrite EJ in Hor, Hj. rewrite app_length in Hj.
+  destruct (Nat.lt_ge_cases (mjoint m) (length (inputJoints inp))) as [Hlt|Hge].
+  - rewrite app_nth1 in Hor by auto. unfold inputJoints in Hlt, Hor. rewrite map_length in Hlt.
+    destruct (nth_map_mkJoint _ _ Hlt) as (x & Hx & E). rewrite E in Hor. simpl in Hor.
+    destruct (Hnm x Hx) as [N1 N2].
+    destruct Hor as [(_ & E1 & E2)|(_ & E1 & E2)]; rewrite E1 in NM; rewrite Hout in E2; simpl in NM, E2.
+    + rewrite N2 in NM; auto; discriminate.
+    + rewrite N1 in NM; auto; discriminate.
+  - rewrite app_nth2 in Hor by auto.
+    assert (Hk : mjoint m - length (inputJoints inp) < length added) by lia.
+    pose proof (nth_In added jd Hk) as HIn. rewrite Forall_forall in Hadd. destruct (Hadd _ HIn) as (b' & _ & E).
+    rewrite E in Hor. simpl in Hor.
+    destruct Hor as [(_ & E1 & E2)|(_ & E1 & E2)].
+    + rewrite E1 in NM. vm_compute in NM. discriminate.
+    + simpl in E2. rewrite Hout in E2. lia.
 Qed.
 
 (* ------------------------------------------------------------------ non-vacuity *)
@@ -153,3 +257,21 @@ Example massless_link_ok : exists g m, generate (defaultFuel massless_link) mass
   moutb m < g_nb g /\ massOf (allBodies massless_link) (moutb m) = 0%Z /\
   0 < dofOf (allTypes massless_link) (nth (mjoint m) (g_joints g) jd).
 Proof. eexists. eexists. split. { vm_compute. reflexivity. } split. { left. reflexivity. } vm_compute. auto. Qed.
+
+(** the default fuel used by the correspondence driver satisfies the bound of [fuel_suffices] *)
+Lemma default_fuel_suffices inp : generate (defaultFuel inp) inp <> OutOfFuel.
+Proof. apply fuel_suffices. unfold defaultFuel. lia. Qed.
+
+(** non-vacuity of [must_be_base_honoured]: a must-be-base body with a tree-eligible Ground joint and massful neighbours *)
+Definition base_ok_input : input :=
+  {| in_types := [pinT; ballT];
+     in_bodies := [ {| bmass := 2; bbase := false |}; {| bmass := 1; bbase := true |} ];
+     in_joints := [ {| ji_ty := 2; ji_par := 0; ji_chi := 1; ji_loop := false |};
+                    {| ji_ty := 2; ji_par := 1; ji_chi := 2; ji_loop := false |} ] |}.
+Example base_ok_input_hyps : (exists g, generate (defaultFuel base_ok_input) base_ok_input = Ok g) /\
+  baseOf (allBodies base_ok_input) 2 = true /\ base_joint_precondition base_ok_input 2 /\ no_massless_neighbour base_ok_input 2.
+Proof.
+  split. { eexists. vm_compute. reflexivity. } split; [reflexivity|]. split.
+  - right. intros j [<-|[<-|[]]]; unfold connectsGround; simpl; lia.
+  - intros j [<-|[<-|[]]]; simpl; split; intros; try lia; reflexivity.
+Qed.
